@@ -157,13 +157,16 @@ class Stabilizer(StateRepresentationBase):
         :return: the measurement outcome
         :rtype: int
         """
+        # an X measurement is a Z measurement in the Hadamard-rotated frame
+        self._tableau = transform.hadamard_gate(self._tableau, qubit_position)
         (
             self._tableau,
             outcome,
             _,
-        ) = sfc.x_measurement_gate(
+        ) = sfc.z_measurement_gate(
             self._tableau, qubit_position, measurement_determinism
         )
+        self._tableau = transform.hadamard_gate(self._tableau, qubit_position)
         return outcome
 
     def apply_hadamard(self, qubit_position):
